@@ -1,5 +1,6 @@
 import Afkak.Assign
 import Afkak.Monitor.C15
+import Afkak.AssignSync
 import Driver.Util
 /-!
 Driver for the `Assign` component (exe `model_assign`).
@@ -20,7 +21,11 @@ Requests: `rr members map`, `gen members map`, `encode version map`, `decode hex
 `meta-enc version strs`, `meta-dec hex`, `utf8-enc string`, `utf8-dec hex`,
 `load strs replies` (replies joined by `/`, each `topic=err:ints` entries joined by `|`, empty `-`),
 `mon-load strs map`, `mon-loadfull strs reply map` (the reply that completed the load),
-`mon members map obs`, `mon-own map map`, `mon-same obs obs`.
+`mon members map obs`, `mon-own map map`, `mon-same obs obs`,
+`syncwire cid corr group gen leader members map corrbase` (cid, group, leader: hex of the UTF-8 bytes): the
+leader's assignments across the SyncGroup wire path (`Afkak/AssignSync.lean`); answers `frame hex` and one
+`via id>map` / `via id none` per listed member (member `id`'s own request has correlation id
+`corrbase + len(id)`), or the exception that ended `generate_assignments` / `encode_sync_group_request`.
 -/
 namespace Driver.Assign
 open Afkak.Assign Afkak.Monitor.C15 Driver
@@ -180,6 +185,21 @@ def step (st : Unit) (line : String) : Unit × List String :=
   | ["mon-same", o1, o2] => match parseObs o1, parseObs o2 with
     | some o1, some o2 => (st, [okFail (sameAssignment o1 o2)])
     | _, _ => (st, ["bad-op"])
+  | ["syncwire", cid, corr, g, gen, leader, ms, tp, cb] =>
+    match parseHex cid, corr.toInt?, parseHex g, gen.toInt?, parseHex leader, parseMembers ms, parseMap tp, cb.toInt? with
+    | some cid, some corr, some g, some gen, some leader, some ms, some tp, some cb =>
+      match generateAssignments ms tp with
+      | .error e => (st, [showErr e])
+      | .ok encs => match syncEntries encs with
+        | .error e => (st, [showErr e])
+        | .ok ga => match Afkak.Wire.encodeSyncGroupRequest cid corr (some g) gen (some leader) ga with
+          | .error e => (st, ["error " ++ e.name])
+          | .ok frame =>
+            (st, ("frame " ++ toHex frame) :: ms.map fun m =>
+              match memberViaSync frame (cb + m.1.length) m.1 with
+              | some a => "via " ++ showStr m.1 ++ ">" ++ showMap a
+              | none => "via " ++ showStr m.1 ++ " none")
+    | _, _, _, _, _, _, _, _ => (st, ["bad-op"])
   | _ => (st, ["bad-op"])
 
 end Driver.Assign
